@@ -36,6 +36,8 @@ def run(chk: Check, model):
     chk.add("C18.nan", "CEM: raw losses never used after sanitising", mentions(ret, "where") and raw not in set(T.walk(abstracted)),
             "cem_update_mean_stdev uses the raw `losses` outside where(isnan(losses), inf, losses): a NaN loss can be selected as best or compared with the best-so-far", chk.loc(fi))
     f = dict(abstracted[2]) if abstracted[0] == "replace" and abstracted[1] == S("state") else {}
+    if abstracted[0] == "obj" and abstracted[1] == "CEMState" and {k for k, _ in abstracted[2]} == set(model.dataclass_fields(model.cls("cem.CEMState"))):
+        f = dict(abstracted[2])  # the new state built by its constructor with every field given: the same as state.replace(<all fields>)
     chk.add("C18.best", "state fields updated", set(f) == {"mean", "stdev", "bestsofar", "bestsofar_loss"}, f"updated fields: {sorted(f)}", chk.loc(fi))
     n_el = T.mk_call("int", [T.mul(S("solver.num_samples"), S("solver.elite_portion"))])
     elite = ("slice", T.mk_call("jax.numpy.argsort", [Ls]), None, n_el, None)
